@@ -14,15 +14,7 @@ from oracles import o_charpoly
 
 
 def classify(failure):
-    """D13: SymPy input with a fully-diagonalised block whose unperturbed block is identically zero makes
-    block_diagonalize raise AttributeError/ShapeError (masks stay NumPy / get the wrong shape).  Recognised by the
-    exception class together with the input predicate; anything else is unknown."""
-    inp = failure.get("input")
-    if (isinstance(inp, dict) and inp.get("kind") == "exception"
-            and failure.get("exc") in ("AttributeError", "ShapeError")
-            and o_charpoly.d13_input(inp["case"])):
-        return "D13"
-    return None
+    return None  # no recorded (unrepaired) finding concerns C04: every failure is a violation
 
 
 def run(ctx):
